@@ -13,8 +13,8 @@ ID = 'C02'
 META = {
     'rule': "full product of 41 data representatives (16 kinds incl. integral floats, digit / 'true' / ISO-date strings, str "
             "subclass instances, empty containers, lists of pairs) x 36 target types (all scalar kinds, enums, literals, scalar "
-            "subclasses, every container kind, struct literal, struct-only and tuple-layout dataclasses, Optional) x 15 embedding "
-            "contexts (thorough: all 225 ordered pairs of contexts); a pair forbidden by the statement must raise ConvertError, in a "
+            "subclasses, every container kind, struct literal, struct-only and tuple-layout dataclasses, Optional) x 16 embedding "
+            "contexts (thorough: all 256 ordered pairs of contexts); a pair forbidden by the statement must raise ConvertError, in a "
             "union context the datum must come back as itself through its own-kind member, and the lossless widenings int->float->complex "
             "must succeed with the exact widened value. Non-trivial: forbidden or widening cell in a non-top context; key = (value kind, target, context, verdict).",
     'assumptions': ["bool->number and int 0/1->bool cells are UNSPEC (Python bool is an int); str -> Decimal/Fraction/date/time/datetime/Pattern/path "
@@ -134,6 +134,8 @@ def contexts(pane):
         ('dc_field_by_name', lambda T, v: _dc(pane, T, False), lambda v: {'f': v}, lambda r: r.f, None),
         ('dc_field_by_position', lambda T, v: _dc(pane, T, True), lambda v: [v], lambda r: r.f, None),
         ('set_elem', lambda T, v: t.FrozenSet[T], lambda v: [v], lambda r: next(iter(r)), hashable),
+        # the count of a Counter is an int whatever the key type: only meaningful for the target `int`
+        ('counter_count', lambda T, v: t.Counter[str], lambda v: {'k': v}, lambda r: r['k'], None),
         ('dc_field_with_default', lambda T, v: _dc_default(pane, T), lambda v: {'f': v}, lambda r: r.f, None),
         ('dc_position_after_noinit_field', lambda T, v: _dc_after_noinit(pane, T), lambda v: [v], lambda r: r.f, None),
     ]
@@ -157,6 +159,8 @@ def eval_cell(pane, ctxs, di, ti, cpath, res):
     vkind, vexpr = DATA[di]
     v = values.eval_expr(vexpr)
     ast, accepted = TARGETS[ti]
+    if any(ctxs[ci][0] == 'counter_count' for ci in cpath) and (ast != 'int' or ctxs[cpath[-1]][0] != 'counter_count'):
+        return
     vd = verdict(vkind, v, ast if isinstance(ast, str) else ast, accepted)
     T = build_target(ast)
     ty, data = T, v
